@@ -49,7 +49,7 @@ Section Logger.
       else mkL r' (view s) (flt s) (paused s).
 
   (* `[m for m in self._filtered_entries if m not in self._raw_entries and self.filter.match(m)]`
-     None: match raised, the comprehension's result is never assigned *)
+     None: match raised *)
   Fixpoint keep_aged (f : F) (r : list E) (l : list E) : option (list E) :=
     match l with
     | [] => Some []
@@ -65,24 +65,35 @@ Section Logger.
              end
     end.
 
-  (* `self._filtered_entries.extend(m for m in self._raw_entries if self.filter.match(m))`:
-     when match raises, what was appended so far stays *)
-  Fixpoint ext_raw (f : F) (l : list E) : list E :=
+  (* `new_entries.extend(m for m in self._raw_entries if new_filter.match(m))`; None: match raised *)
+  Fixpoint ext_raw (f : F) (l : list E) : option (list E) :=
     match l with
-    | [] => []
+    | [] => Some []
     | m :: l' =>
         match mt f m with
-        | None => []
-        | Some b => if b then m :: ext_raw f l' else ext_raw f l'
+        | None => None
+        | Some b =>
+            match ext_raw f l' with
+            | None => None
+            | Some k => Some (if b then m :: k else k)
+            end
+        end
+    end.
+
+  (* set_filter evaluates the new filter on everything before it touches any state;
+     None: match raised, the logger is unchanged *)
+  Definition try_set_filter (s : lstate) (f : F) : option lstate :=
+    match keep_aged f (raw s) (view s) with
+    | None => None
+    | Some a =>
+        match ext_raw f (raw s) with
+        | None => None
+        | Some r => Some (mkL (raw s) (a ++ r) f (paused s))
         end
     end.
 
   Definition step_set_filter (s : lstate) (f : F) : lstate :=
-    (* self.filter is assigned first *)
-    match keep_aged f (raw s) (view s) with
-    | None => mkL (raw s) (view s) f (paused s)
-    | Some a => mkL (raw s) (a ++ ext_raw f (raw s)) f (paused s)
-    end.
+    match try_set_filter s f with Some s' => s' | None => s end.
 
   Definition step (s : lstate) (o : lop) : lstate :=
     match o with
@@ -111,7 +122,7 @@ Section Logger.
                | Some x => if in_raw x (view s') then aged ++ [x] else aged
                | None => aged
                end
-      | SetFilter (Some f) => filter (mb f) aged
+      | SetFilter (Some f) => match try_set_filter s f with Some _ => filter (mb f) aged | None => aged end
       | SetFilter None => aged
       | SetPaused _ => aged
       | Clear => []
